@@ -110,28 +110,39 @@ Qed.
 (* The penetrance mask.  Scores are x/S.  Vocabulary (Proofs/PenetranceP.v):
      above_floors th (q1, qd, f)    :=  q1_min <= q1 /\ qdiff_min <= qd /\ fold_min <= f
      strictly_passes th (q1, qd, f) :=  q1_th < q1 /\ qdiff_th < qd /\ fold_th < f
-     margin S th                    :=  (th - min)^2 >= 1e-10 for the three criteria
      crit th exact sc               :=  if exact then strictly_passes th sc else above_floors th sc
      in_list mask g                 :=  no gene list, or gene g belongs to it *)
 
-(* soundness of approx_penetrance_test: an accepted gene is on or above every floor —
-   under the margin hypothesis (each strict threshold >= 1e-5 above its floor) *)
+(* soundness of approx_penetrance_test: an accepted gene is on or above every floor, for
+   EVERY setting the code accepts (each strict threshold above its floor), however close the
+   floors are to the thresholds, and whichever branch (enough absolutely valid genes or not)
+   is taken.  (Before the repair of F8 this needed each threshold >= 1e-5 above its floor.) *)
 Theorem c11_penetrance_sound : forall S th n_valid scores m g,
-  margin S th ->
   approx_penetrance_test S th n_valid scores = POk m -> nth_error m g = Some true ->
   exists sc, nth_error scores g = Some sc /\ above_floors th sc.
 Proof. exact approx_sound. Qed.
 Print Assumptions c11_penetrance_sound.
 
-(* F8: without the margin the faithful model REFUTES it: floor 2^-20 below the threshold,
-   gene 2^-20 below the floor, n_valid = 1 -> accepted as "absolutely valid" *)
-Theorem c11_sound_refuted :
-  exists S th n_valid scores m g sc,
-    0 < S /\ th_ordered th /\
-    approx_penetrance_test S th n_valid scores = POk m /\ nth_error m g = Some true /\
-    nth_error scores g = Some sc /\ ~ above_floors th sc.
-Proof. exact approx_sound_refuted. Qed.
-Print Assumptions c11_sound_refuted.
+(* the former F8 counterexample (floor 2^-20 below the threshold, gene 2^-20 below the floor,
+   n_valid = 1): still within 1e-10 of the strict corner, below the floor, now rejected *)
+Example c11_f8_witness_rejected :
+  let th := mk_th 114688 114687 524288 104858 1048576 838861 in
+  let sc : score := (114686, 943718, 2097152) in
+  ~ above_floors th sc /\
+  within_eps 1048576 (gd_of th 0 sc) = true /\
+  approx_penetrance_test 1048576 th 1 [sc] = POk [false].
+Proof. exact f8_witness_rejected. Qed.
+
+(* a tight setting on which the theorem is not vacuous: floor 2^-20 below the threshold, one gene
+   between floor and threshold (accepted by the relaxation), one below the floor (rejected) *)
+Example c11_penetrance_sound_tight_nonvacuous :
+  let th := mk_th 114688 114687 524288 104858 1048576 838861 in
+  approx_penetrance_test 1048576 th 2 [(114687, 943718, 2097152); (114686, 943718, 2097152)] = POk [true; false] /\
+  above_floors th (114687, 943718, 2097152) /\ ~ strictly_passes th (114687, 943718, 2097152).
+Proof.
+  cbv zeta. split; [vm_compute; reflexivity|].
+  unfold above_floors, strictly_passes; cbn. split; lia.
+Qed.
 
 (* completeness of approx_penetrance_test: every gene strictly above the three strict
    thresholds is accepted, whichever branch (enough absolutely valid genes or not) is taken *)
@@ -148,10 +159,9 @@ Print Assumptions c11_penetrance_complete.
      both clusters have at least n_cells_min cells, its (restricted) Holm-corrected p-value
      is below p_th, it belongs to the gene list, and it is on or above every floor
      (strictly above every strict threshold when exact penetrance is requested).
-   The hypotheses: the margin (F8), q1_min_th > -1 (genes outside the list get q1 = -1) and
+   The hypotheses: q1_min_th > -1 (genes outside the list get q1 = -1) and
    q1_th > q1_min_th (enforced by the code in the approximate mode). *)
 Theorem c11_sound : forall st mask x v up g,
-  margin (st_S st) (st_th st) ->
   - st_S st < q1_min (st_th st) -> q1_min (st_th st) < q1_th (st_th st) ->
   score_differential_genes st mask x = POk (v, up) -> nth_error v g = Some true ->
   st_n_min st <= pi_n1 x /\ st_n_min st <= pi_n2 x /\
@@ -177,7 +187,6 @@ Print Assumptions c11_complete.
 (* with exact penetrance requested nothing else is recorded *)
 Theorem c11_exact_iff : forall st mask x v up g,
   st_exact st = true ->
-  margin (st_S st) (st_th st) ->
   - st_S st < q1_min (st_th st) -> q1_min (st_th st) < q1_th (st_th st) -> 0 < st_S st ->
   length (pi_mean1 x) = length (pi_scores x) ->
   score_differential_genes st mask x = POk (v, up) ->
@@ -196,7 +205,7 @@ Definition c11_x : pair_in :=
              [(900, 800, 2048); (900, 800, 2048); (300, 200, 900); (50, 800, 2048)]
              [0; 0; 900; 2048] [2048; 2048; 0; 0].
 Example c11_sound_complete_nonvacuous :
-  margin (st_S c11_st) (st_th c11_st) /\ - st_S c11_st < q1_min (st_th c11_st) /\
+  - st_S c11_st < q1_min (st_th c11_st) /\
   q1_min (st_th c11_st) < q1_th (st_th c11_st) /\
   score_differential_genes c11_st None c11_x = POk ([true; false; true; false], [true; true; false; false]) /\
   (* gene 0 strictly passes, gene 2 is only above the floors (recorded by the relaxation),
@@ -204,7 +213,7 @@ Example c11_sound_complete_nonvacuous :
   strictly_passes (st_th c11_st) (900, 800, 2048) /\ above_floors (st_th c11_st) (300, 200, 900) /\
   ~ strictly_passes (st_th c11_st) (300, 200, 900) /\ ~ above_floors (st_th c11_st) (50, 800, 2048).
 Proof.
-  split; [unfold margin; cbn; lia|]. split; [cbn; lia|]. split; [cbn; lia|].
+  split; [cbn; lia|]. split; [cbn; lia|].
   split; [vm_compute; reflexivity|].
   unfold strictly_passes, above_floors; cbn. repeat split; lia.
 Qed.
@@ -242,7 +251,6 @@ Print Assumptions c11_up_down_cover.
    and |fold| are symmetric) leaves the validity mask unchanged and flips the direction of
    every recorded gene, given log2_fold_min_th > 0 and log2_fold = |mean1 - mean2| *)
 Theorem c11_pair_swap : forall st mask x v up g,
-  margin (st_S st) (st_th st) ->
   - st_S st < q1_min (st_th st) -> q1_min (st_th st) < q1_th (st_th st) ->
   0 < fold_min (st_th st) -> fold_min (st_th st) < fold_th (st_th st) ->
   length (pi_mean1 x) = length (pi_mean2 x) ->
@@ -276,6 +284,31 @@ Theorem c11_worker_independent : forall st gn gl np np' pairs,
 Proof. exact find_markers_workers. Qed.
 Print Assumptions c11_worker_independent.
 
+(* the tables are written for EVERY outcome of the per-pair scoring (F17 repaired: a direction
+   in which no pair has a marker no longer aborts the run): when the gene list overlaps the
+   genes and every pair is scored, the result is the pair-major table of the up lists and of
+   the down lists *)
+Theorem c11_tables_total : forall st gn gl np pairs mask uds,
+  gene_mask_of gn gl = POk mask ->
+  pmap (fun x => pbind (score_differential_genes st mask x) (fun vu => POk (up_down vu))) pairs = POk uds ->
+  find_markers st gn gl np pairs = POk (lookup_to_sparse (map fst uds), lookup_to_sparse (map snd uds)).
+Proof. exact find_markers_tables. Qed.
+Print Assumptions c11_tables_total.
+
+(* ... and the table of a direction without any marker is: no gene index, every pointer 0 *)
+Theorem c11_empty_direction_table : forall (rows : list (list nat)),
+  Forall (fun r => r = []) rows ->
+  lookup_to_sparse rows = (repeat 0%nat (S (length rows)), []).
+Proof. exact empty_direction_table. Qed.
+Print Assumptions c11_empty_direction_table.
+
+(* two clusters, every marker higher in the first: no up-regulated gene in the whole table *)
+Example c11_no_up_direction_nonvacuous :
+  let x := mk_pair_in 3 2 1024 10 [1; 600; 2] [(900, 800, 2048); (900, 800, 2048); (300, 200, 900)]
+                      [2048; 2048; 900] [0; 0; 0] in
+  find_markers c11_st [0; 1; 2] None 1 [x] = POk (([0; 0]%nat, []), ([0; 2]%nat, [0; 2]%nat)).
+Proof. cbv zeta. vm_compute. reflexivity. Qed.
+
 Example c11_chunk_merge_nonvacuous :
   merge_sparse (map lookup_to_sparse (chunk_list 5 2 [[1; 4]; []; [0]; [2; 3; 5]; [7]]%nat)) 0
   = ([0; 2; 2; 3; 6; 7]%nat, [1; 4; 0; 2; 3; 5; 7]%nat).
@@ -284,8 +317,8 @@ Proof. vm_compute. reflexivity. Qed.
 (* ------------------------------------------------------------------ *)
 (* the p-value-mask route.
    Stage 1 (create_p_value_mask_file, one pair): a gene has an entry iff its restricted-Holm
-   p-value is below p_th and it is on or above every floor (no margin hypothesis needed: the
-   floors are applied directly); the entry of a strictly passing gene is the distance 0,
+   p-value is below p_th and it is on or above every floor (the floors are applied
+   directly); the entry of a strictly passing gene is the distance 0,
    stored as "strictly valid".  NOTE: no n_cells_min test at this stage, as coded (finding F16). *)
 Theorem c11_mask_file_exact : forall st x es,
   p_mask_row st x = POk es ->
@@ -332,7 +365,6 @@ Proof. split; vm_compute; reflexivity. Qed.
    recorded => the full Holm-corrected p-value is below p_th, for raw p-values in [0, 1] and p_th <= 1 *)
 Theorem c11_sound_full_holm : forall st mask x v up g,
   Forall (fun q => 0 <= q <= pi_SP x) (pi_p x) -> pi_T x <= pi_SP x ->
-  margin (st_S st) (st_th st) ->
   - st_S st < q1_min (st_th st) -> q1_min (st_th st) < q1_th (st_th st) ->
   score_differential_genes st mask x = POk (v, up) -> nth_error v g = Some true ->
   st_n_min st <= pi_n1 x /\ st_n_min st <= pi_n2 x /\
